@@ -27,6 +27,9 @@ about the observable behaviour is decided by the other areas.
 import Driver.Util
 import Driver.Ev.Core
 import Driver.Ev.BQ
+import Driver.Ev.Cond
+import Driver.Ev.SyncX
+import Driver.Ev.DelayQ
 
 namespace Driver.EvTrace
 open Driver Driver.Ev
@@ -37,6 +40,10 @@ inductive St where
   | dead                      -- a line of this scenario was rejected: the rest of it is not judged again
   | abq (s : Ekit.ArrayBQ.State)
   | lbq (s : Ekit.LinkedBQ.State)
+  | cond (s : Driver.Ev.Cond.State)
+  | limit (s : Limit.State)
+  | seg (s : Seg.State)
+  | dq (s : Driver.Ev.DQ.State)
 
 def liftE {σ} (wrap : σ → St) (r : Except String σ) : St × Option String :=
   match r with
@@ -48,6 +55,10 @@ def start (tgt : String) (args : List String) : St × Option String :=
   match tgt with
   | "abq" => liftE .abq (ABQ.init args)
   | "lbq" => liftE .lbq (LBQ.init args)
+  | "cond" => liftE .cond (Cond.init args)
+  | "limit" => liftE .limit (Limit.init args)
+  | "seg" => liftE .seg (Seg.init args)
+  | "dq" => liftE .dq (DQ.init args)
   | _ => (.dead, some s!"unknown target {tgt}")
 
 /-- one event of thread `t` -/
@@ -62,10 +73,26 @@ def event (st : St) (t : Nat) (what : String) (args : List String) (obs : String
   | .lbq s =>
     if what = "inv" then liftE .lbq (LBQ.invL s t args) else if what = "res" then liftE .lbq (LBQ.resL s t args)
     else liftE .lbq (LBQ.sync s t fn act obs)
+  | .cond s =>
+    if what = "inv" then liftE .cond (Cond.invL s t args) else if what = "res" then liftE .cond (Cond.resL s t args)
+    else liftE .cond (Cond.sync s t fn act obs)
+  | .limit s =>
+    if what = "inv" then liftE .limit (Limit.invL s t args) else if what = "res" then liftE .limit (Limit.resL s t args)
+    else liftE .limit (Limit.sync s t fn act obs)
+  | .seg s =>
+    if what = "inv" then liftE .seg (Seg.invL s t args) else if what = "res" then liftE .seg (Seg.resL s t args)
+    else liftE .seg (Seg.sync s t fn act obs)
+  | .dq s =>
+    if what = "inv" then liftE .dq (DQ.invL s t args) else if what = "res" then liftE .dq (DQ.resL s t args)
+    else liftE .dq (DQ.sync s t fn act obs)
 
 def finish : St → Option String
   | .abq s => ABQ.atEnd s
   | .lbq s => LBQ.atEnd s
+  | .cond s => Cond.atEnd s
+  | .limit s => Limit.atEnd s
+  | .seg s => Seg.atEnd s
+  | .dq s => DQ.atEnd s
   | _ => none
 
 def checker (model : Bool) : Checker where
